@@ -253,3 +253,47 @@ Section Link.
     exists h', w'. split; [reflexivity|]. split; [exact R|]. split; [apply S; exact H'|]. auto.
   Qed.
 End Link.
+
+(* ---------------- a rejected edge insertion: an endpoint (a positive id) that is not a node ---------------- *)
+Lemma step_insert_edge_fail rv d f t :
+  (0 < f)%Z -> (0 < t)%Z -> is_node (gr d) f && is_node (gr d) t = false ->
+  exists e, exec_mut_step rv d (lq_insert_edge f t) = StErr d e.
+Proof.
+  intros Pf Pt Hn. unfold lq_insert_edge, exec_mut_step, insert_edges.
+  cbn [resolve_ids resolve_all length Nat.eqb negb edge_db_ids]. unfold db_id, graph_index.
+  destruct (Z.ltb_spec f 0) as [X|_]; [lia|]. destruct (Z.ltb_spec 0 f) as [_|X]; [|lia].
+  destruct (Z.ltb_spec t 0) as [X|_]; [lia|]. destruct (Z.ltb_spec 0 t) as [_|X]; [|lia].
+  destruct (is_node (gr d) f); [|eexists; reflexivity]. cbn [andb] in Hn. rewrite Hn. eexists. reflexivity.
+Qed.
+
+(* a failing query on a database at rest (empty undo stack) is rolled back to the database itself *)
+Lemma exec_of_err rv d q e :
+  is_mutating q = true -> exec_mut_step rv d q = StErr d e -> undo d = [] ->
+  Queries.exec rv d q = (clear_undo d, QErr e).
+Proof.
+  intros M E U. unfold Queries.exec, exec_in_txn. rewrite M, E. unfold rollback. rewrite U. reflexivity.
+Qed.
+
+Section LinkFail.
+  Variable fl : bool.
+  Variable rv : revision.
+
+  Theorem so_exec_insert_edge_rejected_stored root d w h f t sp :
+    stored_db_w (hp sp) root d w -> so_handles h w -> so_graph_ok (gr d) ->
+    (0 < f)%Z -> (0 < t)%Z -> is_node (gr d) f && is_node (gr d) t = false -> undo d = [] ->
+    cwp fl (so_q_insert_edge h f t) sp
+        (fun r sp' => r = CrOk (h, None) /\ qres_ids (snd (Queries.exec rv d (lq_insert_edge f t))) = None /\
+                      fst (Queries.exec rv d (lq_insert_edge f t)) = d /\
+                      stored_db_w (hp sp') root d w /\ sdepth sp' = sdepth sp /\
+                      frame (hp sp) (hp sp') (sd_foot root w) (sd_foot root w)).
+  Proof.
+    intros H Hh OK Pf Pt Hn U.
+    assert (EN : insert_edge (gr d) f t = None) by (unfold insert_edge; rewrite Hn; reflexivity).
+    eapply cwp_mono; [|eapply (so_q_insert_edge_stored fl); [exact H|exact Hh|exact OK|intros X; contradiction X; exact EN|]].
+    - unfold insert_edge_db. rewrite EN. intros r sp' (-> & H' & D' & F').
+      destruct (step_insert_edge_fail rv d f t Pf Pt Hn) as [e E].
+      rewrite (exec_of_err rv d (lq_insert_edge f t) e eq_refl E U). cbn [fst snd qres_ids].
+      split; [reflexivity|]. split; [reflexivity|]. split; [destruct d; cbn in U |- *; rewrite U; reflexivity|]. auto.
+    - unfold insert_edge_db. rewrite EN. intros e d1 X. discriminate X.
+  Qed.
+End LinkFail.
